@@ -51,7 +51,16 @@ def make_desc(rng, ptr):
                 off += a * rng.randint(1, 2)
             k = rng.random()
             if off != cur:
-                if k < 0.5:
+                if off - cur >= 2 and rng.random() < 0.3:
+                    # the distance is covered in two steps: a gap, then a second gap or an address
+                    g1 = rng.randint(1, off - cur - 1)
+                    entries.append(("gap", g1))
+                    if k < 0.5:
+                        entries.append(("gap", off - cur - g1))
+                        addr = None if rng.random() < 0.7 else off
+                    else:
+                        addr = off
+                elif k < 0.5:
                     entries.append(("gap", off - cur))
                     addr = None if rng.random() < 0.7 else off
                 else:
